@@ -44,6 +44,9 @@ def shapes(tier):
     for gl in (False, True):
         out.append({"what": "sample_logp", "generate_linear": gl})
     out.append({"what": "sample_logp", "generate_linear": True, "offsets": True})
+    # call history on one prior object: an earlier sample() call with another dtype / other options
+    out.append({"what": "sample_logp", "generate_linear": True, "history": "float32_first"})
+    out.append({"what": "sample_logp", "generate_linear": False, "history": "linear_first"})
     return out
 
 
@@ -263,6 +266,15 @@ def _sample_prior(shape):
     return tj.JokerPrior.default(P_min=3 * u.day, P_max=300 * u.day, sigma_K0=20 * u.km / u.s, sigma_v=50 * u.km / u.s)
 
 
+def _history(prior, shape):
+    """the earlier call of a history shape (same prior object)"""
+    h = shape.get("history")
+    if h == "float32_first":
+        prior.sample(size=3, generate_linear=shape["generate_linear"], return_logprobs=True, rng=np.random.default_rng(11), dtype=np.float32)
+    elif h == "linear_first":
+        prior.sample(size=3, generate_linear=not shape["generate_linear"], return_logprobs=True, rng=np.random.default_rng(11))
+
+
 # ---- F: the graphs prior.sample evaluates for ln_prior -----------------------------------------
 
 def _sample_logp(shape):
@@ -273,6 +285,7 @@ def _sample_logp(shape):
     prior = _sample_prior(shape)
     captured = []
     orig = Variable.eval
+    _history(prior, shape)
 
     def rec(self, *a, **k):
         captured.append(self)
@@ -344,19 +357,35 @@ def replay(cand):
             if ks.pvalue < 1e-4:
                 bad.append("draws are not log-uniform (KS p=%g)" % ks.pvalue)
         elif what == "fcm_sigma":
-            with pm.Model():
-                P = xu.with_unit(UniformLog("P", 1.0, 100.0), u.day)
-                e = xu.with_unit(Kipping13Global("e"), u.one)
-                K = FixedCompanionMass("K", P=P, e=e, sigma_K0=30 * u.km / u.s, P0=1 * u.year, max_K=90 * u.km / u.s)
-            sig = K.owner.op.dist_params(K.owner)[1]
-            for Pv, evv in ((3.0, 0.1), (40.0, 0.6), (1.5, 0.95)):
-                got = float(sig.eval({P: Pv, e: evv}))
-                want = min(30.0 * (Pv / 365.25) ** (-1 / 3) / np.sqrt(1 - evv ** 2), 90.0)
-                if not np.isclose(got, want, rtol=1e-6):
-                    bad.append("sigma_K(P=%g d, e=%g) = %r, declared rule %r" % (Pv, evv, got, want))
+            cfgs = {"base": (u.day, 1 * u.year, 30 * u.km / u.s, 90 * u.km / u.s), "day_year": (u.day, 1 * u.year, 30 * u.km / u.s, None),
+                    "year_day": (u.year, 100 * u.day, 25 * u.km / u.s, 80 * u.km / u.s), "ms": (u.day, 2 * u.year, 3000 * u.m / u.s, 200 * u.km / u.s)}
+            for cfg in ("base", shape.get("cfg", "base")):
+                P_unit, P0, sK0, maxK = cfgs[cfg]
+                with pm.Model():
+                    P = xu.with_unit(UniformLog("P", 1.0, 100.0), P_unit)
+                    e = xu.with_unit(Kipping13Global("e"), u.one)
+                    kw = {} if maxK is None else {"max_K": maxK}
+                    K = FixedCompanionMass("K", P=P, e=e, sigma_K0=sK0, P0=P0, **kw)
+                sig = K.owner.op.dist_params(K.owner)[1]
+                cap = (500 * u.km / u.s if maxK is None else maxK).to_value(sK0.unit)
+                for Pv, evv in ((3.0, 0.1), (40.0, 0.6), (1.5, 0.95)):
+                    got = float(sig.eval({P: Pv, e: evv}))
+                    want = min(sK0.value * (Pv / P0.to_value(P_unit)) ** (-1 / 3) / np.sqrt(1 - evv ** 2), cap)
+                    if not np.isclose(got, want, rtol=1e-6):
+                        bad.append("[%s] sigma_K(P=%g %s, e=%g) = %r in %s, declared rule %r" % (cfg, Pv, P_unit, evv, got, sK0.unit, want))
+                if abs(K._sigma_K0.to_value(sK0.unit) - sK0.value) > 1e-9 * sK0.value or K._max_K.unit != sK0.unit:
+                    bad.append("[%s] stored sigma_K0=%s / max_K=%s are not the declared quantities in the unit of sigma_K0 (%s)" % (cfg, K._sigma_K0, K._max_K, sK0.unit))
+            # through the public prior: K is labelled with the unit of sigma_K0
+            pr = tj.JokerPrior.default(P_min=3 * u.day, P_max=300 * u.day, sigma_K0=3000 * u.m / u.s, sigma_v=50 * u.km / u.s)
+            smp = pr.sample(size=400, generate_linear=True, rng=np.random.default_rng(2))
+            Pd, ee = smp["P"].to_value(u.day), np.asarray(smp["e"])
+            z = smp["K"].to_value(u.km / u.s) / np.minimum(3.0 * (Pd / 365.25) ** (-1 / 3) / np.sqrt(1 - ee ** 2), 500.0)
+            if not (0.8 < np.std(z) < 1.25):
+                bad.append("JokerPrior.default(sigma_K0=3000 m/s): K draws have %.3g times the declared standard deviation" % np.std(z))
         elif what == "sample_logp":
             gl = shape["generate_linear"]
             prior = _sample_prior(shape)
+            _history(prior, shape)
             a = prior.sample(size=6, generate_linear=gl, return_logprobs=True, rng=np.random.default_rng(3))
             b = prior.sample(size=6, generate_linear=gl, return_logprobs=True, rng=np.random.default_rng(3))
             if not np.array_equal(np.asarray(a["ln_prior"]), np.asarray(b["ln_prior"])):
